@@ -630,6 +630,21 @@ def _labels(c0, r, n):
     return [F(c0) + i * F(r) for i in range(n)]
 
 
+INT_DTYPES = {"uint8": (0, 255), "uint16": (0, 65535), "int8": (-128, 127), "int16": (-32768, 32767), "int32": (-2 ** 31, 2 ** 31 - 1),
+              "uint32": (0, 2 ** 32 - 1), "int64": (-2 ** 40, 2 ** 40)}     # int64: only labels (and half-pixel offsets) that binary64 holds exactly
+
+
+def _label_array(lab, dtype):
+    """the labels as a numpy array of the requested dtype (None: float64); None when they do not fit"""
+    import numpy as np
+    if dtype is None:
+        return np.asarray([float(v) for v in lab])
+    lo, hi = INT_DTYPES[dtype]
+    if any(v.denominator != 1 or not lo <= v <= hi for v in lab):
+        return None
+    return np.asarray([int(v) for v in lab], dtype=dtype)
+
+
 def _fallback(fb):
     """fb: None | float (scalar: x = s, y = -s) | ("xy", fx, fy) -> (argument for the call, (fx, fy) as Fractions)"""
     from odc.geo import resxy_
@@ -640,14 +655,16 @@ def _fallback(fb):
     return fb, (F(fb), -F(fb))
 
 
-def p_axis_fb(c0, r, n, c1, r1, m, fb):
+def p_axis_fb(c0, r, n, c1, r1, m, fb, dtx=None, dty=None):
     """affine_from_axis with a fallback_resolution that may DISAGREE with the label spacing: pixel centre k must map to
     label k on every axis (exact Fractions); the pixel size is the label spacing for an axis with >= 2 labels and the
     fallback component only for a single-label axis; a single label without fallback raises ValueError"""
     import numpy as np
     from odc.geo.math import affine_from_axis
     lx, ly = _labels(c0, r, n), _labels(c1, r1, m)
-    xx, yy = np.asarray([float(v) for v in lx]), np.asarray([float(v) for v in ly])
+    xx, yy = _label_array(lx, dtx), _label_array(ly, dty)        # float64 or integer labels (signed / unsigned, narrow)
+    if xx is None or yy is None:
+        return True, "outside the domain (labels do not fit the drawn integer dtype)"
     arg, (fx, fy) = _fallback(fb)
     if (n == 1 or m == 1) and fb is None:
         try:
@@ -663,15 +680,17 @@ def p_axis_fb(c0, r, n, c1, r1, m, fb):
         ok = ok and F(A.c) + (F(i) + F(1, 2)) * F(A.a) == lx[i]
     for j in range(m):
         ok = ok and F(A.f) + (F(j) + F(1, 2)) * F(A.e) == ly[j]
-    return ok, f"affine_from_axis({n} x-labels step {r!r}, {m} y-labels step {r1!r}, fallback={fb!r}) -> {tuple(A)[:6]}"
+    return ok, f"affine_from_axis({n} {dtx or 'float64'} x-labels from {c0!r} step {r!r}, {m} {dty or 'float64'} y-labels from {c1!r} step {r1!r}, fallback={fb!r}) -> {tuple(A)[:6]}"
 
 
-def p_data_res(c0, r, n, fb):
+def p_data_res(c0, r, n, fb, dtype=None):
     """data_resolution_and_offset on n regular labels: (spacing, first - spacing/2); the fallback counts only for n == 1"""
     import numpy as np
     from odc.geo.math import data_resolution_and_offset
     lab = _labels(c0, r, n)
-    arr = np.asarray([float(v) for v in lab])
+    arr = _label_array(lab, dtype)
+    if arr is None:
+        return True, "outside the domain (labels do not fit the drawn integer dtype)"
     if n == 0 or (n == 1 and fb is None):
         try:
             got = data_resolution_and_offset(arr, fb)
@@ -681,7 +700,25 @@ def p_data_res(c0, r, n, fb):
     res, off = data_resolution_and_offset(arr, fb)
     want = F(r) if n >= 2 else F(fb)
     ok = F(res) == want and F(off) == lab[0] - want / 2
-    return ok, f"data_resolution_and_offset({n} labels from {c0!r} step {r!r}, fallback {fb!r}) = {(res, off)}"
+    ok = ok and isinstance(res, float) and isinstance(off, float)
+    return ok, f"data_resolution_and_offset({n} {dtype or 'float64'} labels from {c0!r} step {r!r}, fallback {fb!r}) = {(res, off)}"
+
+
+def p_res_from_affine(A6):
+    """resolution_from_affine: the diagonal for scale+translation transforms; otherwise the scale S of A = R W S
+    (R proper rotation, W unit upper triangular): sx = |first column|, sy = det / sx -- NOT the length of the second
+    column, which differs as soon as there is shear.  Reference computed here with math.hypot, relative 1e-9."""
+    from affine import Affine
+    from odc.geo.math import resolution_from_affine
+    a, b, c, d, e, f = A6
+    r = resolution_from_affine(Affine(*A6))
+    if abs(b) < 1e-10 and abs(d) < 1e-10:
+        want = (a, e)
+    else:
+        sx = math.hypot(a, d)
+        want = (sx, (a * e - b * d) / sx)
+    ok = abs(r.x - want[0]) <= 1e-9 * (1 + abs(want[0])) and abs(r.y - want[1]) <= 1e-9 * (1 + abs(want[1]))
+    return ok, f"resolution_from_affine{tuple(A6)} = {(r.x, r.y)}, scale of the R*W*S decomposition {want}"
 
 
 REPRS = ("int", "int64", "int32", "float", "float32", "float64")
@@ -903,7 +940,7 @@ def gcp_layouts(rng):
 PREDICATES = {"split": p_split, "near_int": p_near_int, "nonfinite": p_nonfinite, "snap_scale": p_snap_scale,
               "align": p_align, "pow2": p_pow2, "clamp": p_clamp, "snap_grid": p_snap_grid,
               "snap_affine": p_snap_affine, "bin": p_bin, "axis": p_axis, "axis_fb": p_axis_fb, "data_res": p_data_res, "rws": p_rws, "from_pts": p_from_pts,
-              "from_pts_repr": p_from_pts_repr, "poly2d_repr": p_poly2d_repr,
+              "from_pts_repr": p_from_pts_repr, "res_from_affine": p_res_from_affine, "poly2d_repr": p_poly2d_repr,
               "poly2d": p_poly2d, "norm_xy": p_norm_xy}
 
 
@@ -977,6 +1014,30 @@ def search(out, tier, kept):
         fb = rng.choice([None, s_, s_, ("xy", s_, -s_), ("xy", -abs(r) * 2, abs(r1) / 2), ("xy", r, r1), abs(r) / 2, -r])
         run("axis_fb", c0, r, n, c1, r1, m, fb)
         run("data_res", c0, r, rng.choice([0, 1, 1, 2, 3, 4, 9]), rng.choice([None, s_, -r, r * 3.5]))
+    # integer-dtype label axes (unsigned / narrow, ascending and descending): differences must not wrap around
+    for _ in range(150 * mult):
+        dtx, dty = rng.choice(list(INT_DTYPES)), rng.choice(list(INT_DTYPES) + [None])
+        n, m = rng.choice([1, 2, 2, 3, 4, 7]), rng.choice([1, 2, 3, 5])
+        r, r1 = float(rng.choice([1, -1]) * rng.choice([1, 2, 5, 10, 30])), float(rng.choice([1, -1]) * rng.choice([1, 3, 10, 20]))
+        lo, hi = INT_DTYPES[dtx]
+        c0 = float(rng.choice([lo, hi, (lo + hi) // 2, 30, 100]))
+        c0 = c0 if (r > 0) == (c0 < (lo + hi) / 2) or n == 1 else float(hi if r < 0 else lo)     # room to run in the drawn direction
+        lo1, hi1 = INT_DTYPES[dty] if dty else (-10 ** 6, 10 ** 6)
+        c1 = float(hi1 if r1 < 0 else lo1) if rng.random() < 0.5 else float(rng.choice([30, 100, 120]))
+        if dty is None:
+            c1 = float(rng.randint(-1000, 1000)) * abs(r1)
+        fb = rng.choice([None, 7.0, -2.5, ("xy", 4.0, -4.0)]) if min(n, m) > 1 or rng.random() < 0.8 else None
+        if (n == 1 or m == 1) and fb is None and rng.random() < 0.7:
+            fb = 10.0
+        run("axis_fb", c0, r, n, c1, r1, m, fb, dtx, dty)
+        run("data_res", c0, r, rng.choice([1, 2, 3, 4, 9]), rng.choice([None, 7.0, -r]), dtx)
+    # resolution_from_affine: rotation x shear x scale (the scale of the R*W*S decomposition, not the column lengths)
+    for _ in range(200 * mult):
+        ang = rng.choice([0.0, 0.0, math.radians(20), -1.1, math.pi / 2, 2.5, rng.uniform(-3, 3)])
+        w = rng.choice([0.0, math.tan(math.radians(20)), -0.5, 2.0, 1e-3, rng.uniform(-1.5, 1.5)])
+        sx, sy = rng.choice([10.0, 30.0, 0.25, 1.0, -2.0]), rng.choice([-10.0, -30.0, 0.5, 3.0, 1.0])
+        ca, sa = math.cos(ang), math.sin(ang)
+        run("res_from_affine", (ca * sx, (ca * w - sa) * sy, rng.uniform(-1e5, 1e5), sa * sx, (sa * w + ca) * sy, rng.uniform(-1e5, 1e5)))
     # representation of the inputs of the fits (Python ints, numpy ints, float32, float64; lists / tuples)
     for _ in range(200 * mult):
         xrep, yrep = rng.choice(REPRS), rng.choice(REPRS)
